@@ -199,7 +199,7 @@ tpt_msg_active_thr_count_dec(tpt_msg_data_p msg_data, tpt_p src,
 		return (tm); /* There is other alive threads. */
 	/* This was last thread, so we need do call back done handler. */
 	tpt_msg_send(msg_data->tpt, src,
-	    (TP_MSG_F_FAIL_DIRECT | TP_MSG_F_SELF_DIRECT),
+	    (TP_MSG_F_FAIL_DIRECT | TP_MSG_F_SELF_DIRECT | TP_MSG_F_FORCE),
 	    tpt_msg_cb_done_proxy_cb, msg_data);
 	return (tm);
 }
@@ -245,7 +245,7 @@ tpt_msg_one_by_one_proxy_cb(tpt_p tpt, void *udata) {
 	}
 	/* Error / Done. */
 	tpt_msg_send(msg_data->tpt, tpt,
-	    (TP_MSG_F_FAIL_DIRECT | TP_MSG_F_SELF_DIRECT),
+	    (TP_MSG_F_FAIL_DIRECT | TP_MSG_F_SELF_DIRECT | TP_MSG_F_FORCE),
 	    tpt_msg_cb_done_proxy_cb, msg_data);
 }
 
